@@ -872,9 +872,10 @@ func (a *Agent) DownloadAdd(FileID int, FilePath string, FileSize int64) error {
 	/* remove null terminator. goland doesn't like it. */
 	DownloadFile = common.StripNull(DownloadFile)
 
-	/* don't truncate a file that another running transfer is still writing to */
+	/* don't truncate a file that another running transfer is still writing to
+	 * (however the agent spells the path: "a\\b", "a\\.\\b", "a\\\\b" are one file) */
 	for i := range a.Downloads {
-		if a.Downloads[i].LocalFile == DemonDownload+"/"+DownloadFile {
+		if filepath.Clean(a.Downloads[i].LocalFile) == filepath.Clean(DemonDownload+"/"+DownloadFile) {
 			logger.Error("File is already being downloaded: " + DownloadFile)
 			return errors.New("File is already being downloaded: " + DownloadFile)
 		}
